@@ -4,13 +4,15 @@
 export GOFLAGS=-mod=mod GOPROXY=off GOSUMDB=off GOTOOLCHAIN=local
 : "${VERIF_ROOT:=$(cd "$(dirname "$0")/.." && pwd)}"
 export VERIF_ROOT
+# the repository under verification (the harness go.mod points at it with a replace directive)
+REPO="${VERIF_REPO:-/repo}"
 cd $VERIF_ROOT/harness || exit 2
 mkdir -p $VERIF_ROOT/bin $VERIF_ROOT/.work
-cmp -s /repo/go.sum go.sum || cp /repo/go.sum go.sum
+cmp -s $REPO/go.sum go.sum || cp $REPO/go.sum go.sum
 go build -o $VERIF_ROOT/bin/instr ./cmd/instr || exit 2
 OV=$VERIF_ROOT/.work/ov-cons
 rm -rf "$OV" && mkdir -p "$OV"
-PKGS=$(cd /repo && go list ./x/... ./app/... ./types/... ./utils/... ./crypto/... ./ethereum/... | grep -v -e '/client/cli$' -e '/types/tests$' -e '/upgrades/v13_sample$' | tr '\n' ' ')
+PKGS=$(cd $REPO && go list ./x/... ./app/... ./types/... ./utils/... ./crypto/... ./ethereum/... | grep -v -e '/client/cli$' -e '/types/tests$' -e '/upgrades/v13_sample$' | tr '\n' ' ')
 [ -n "$PKGS" ] || { echo "HARNESS: go list of /repo failed" >&2; exit 2; }
-$VERIF_ROOT/bin/instr -out "$OV" -profile consensus $PKGS >"$OV/instr.log" 2>&1 || { cat "$OV/instr.log" >&2; exit 2; }
+$VERIF_ROOT/bin/instr -repo "$REPO" -out "$OV" -profile consensus $PKGS >"$OV/instr.log" 2>&1 || { cat "$OV/instr.log" >&2; exit 2; }
 go build -tags verif -overlay "$OV/overlay.json" -o $VERIF_ROOT/bin/vcheck-i ./cmd/vcheck || exit 2
